@@ -397,7 +397,14 @@ func (m *Mon) stepC03C04(sc *StepCtx, si stepInfo) {
 	if rm, ok := sc.Msg.(*types.MsgRefundServiceDeposit); ok {
 		b, had := pre.Bindings[bkey(rm.ServiceName, rm.Provider)]
 		if had {
-			deadline := b.DisabledTime.Add(pre.Params.ArbitrationTimeLimit).Add(pre.Params.ComplaintRetrospect)
+			// the wait counts from the moment the harness saw the binding turn unavailable
+			// (the stored disabled time is what the module itself goes by)
+			since := b.DisabledTime
+			if t, ok := m.disabledAt[bkey(rm.ServiceName, rm.Provider)]; ok && !b.Available {
+				m.hit("C03", "refund-wait-from-observed-disabling", fmt.Sprintf("same%v", t.Equal(since)))
+				since = t
+			}
+			deadline := since.Add(pre.Params.ArbitrationTimeLimit).Add(pre.Params.ComplaintRetrospect)
 			rel := "after"
 			switch {
 			case pre.Time.Equal(deadline):
@@ -454,7 +461,7 @@ func (m *Mon) stepC05(sc *StepCtx, si stepInfo) {
 	m.eval("C05")
 	pre, post := sc.Pre, sc.Post
 	w := sc.run.w
-	moduleAcc := map[string]bool{w.addrOf("escrow"): true, w.addrOf("deposits"): true, w.addrOf("feecollector"): true}
+	moduleAcc := map[string]bool{w.addrOf("escrow"): true, w.addrOf("deposits"): true, w.addrOf("feecollector"): true, w.addrOf("govacc"): true}
 	if sc.IsMsg() {
 		signers := sc.Msg.GetSigners()
 		signer := hexs(signers[0])
@@ -554,6 +561,18 @@ func (m *Mon) stepC05(sc *StepCtx, si stepInfo) {
 				m.fail(sc, "C05", "block-debits-only-issuing-consumers", "", "end-of-block lowered the balance of %s (%.8s) by %s although no running context of it issued a batch", w.tracked[a], a, d)
 			}
 		}
+		return
+	}
+	if sc.Step.Kind == "send" {
+		// an ordinary bank transfer: only the sender pays
+		for a := range post.Bal {
+			if d := delta(pre, post, a); d.Sign() < 0 && a != sc.Step.From {
+				m.fail(sc, "C05", "debits-only-signer", "bank-send", "a bank transfer from %.8s lowered the balance of %s (%.8s) by %s", sc.Step.From, w.tracked[a], a, d)
+			}
+		}
+		return
+	}
+	if sc.Step.Mod == nil {
 		return
 	}
 	// module operations are not messages: they must not move anybody's coins
